@@ -103,6 +103,15 @@ impl DBM {
             Err(_) => (old(self).appt_receipts.contains_key((tower_id, locator)) || !old(self).towers.contains_key(tower_id)) && *final(self) == *old(self),
         },
     { unimplemented!() }
+    // SELECT start_block, user_signature, tower_signature FROM appointment_receipts WHERE tower_id = ?1 and locator = ?2
+    #[verifier::external_body]
+    pub fn load_appointment_receipt(&self, tower_id: TowerId, locator: Locator) -> (r: Option<AppointmentReceipt>)
+        ensures match r {
+            Some(a) => self.appt_receipts.contains_key((tower_id, locator)) && a.start_block == self.appt_receipts[(tower_id, locator)].start_block
+                && a.user_signature@ == self.appt_receipts[(tower_id, locator)].user_signature,
+            None => !self.appt_receipts.contains_key((tower_id, locator)),
+        },
+    { unimplemented!() }
     #[verifier::external_body]
     pub fn load_appointment(&self, locator: Locator) -> (r: Option<Appointment>)
         ensures match r {
